@@ -12,7 +12,8 @@ is accepted although CPython hands `{'x': 2}` to a `**kw: str`.
 import ast
 
 from sa.core import rule, AnalysisError
-from sa.pyindex import get_module, dotted, src
+from sa.pyindex import get_module, dotted, src, walk_no_nested
+from rules import c13 as C13
 
 PF = "pytype/abstract/_pytd_function.py"
 
@@ -20,49 +21,48 @@ PF = "pytype/abstract/_pytd_function.py"
 @rule("R13.20", "C13", floor=1)
 def r13_20(ctx):
   """Positional-only-named keywords are matched against the **kwargs type."""
-  mod = get_module(ctx, PF)
-  fn = mod.func("PyTDSignature._map_args")
-  # the loop that appends (name, <kwargs value type>) to formal_args
-  loops = []
-  for n in ast.walk(fn):
-    if isinstance(n, ast.For):
-      body = " ".join(src(s) for s in n.body)
-      if "formal_args.append" in body and "kwargs_type" in body:
-        loops.append(n)
-  if len(loops) != 1:
-    raise AnalysisError("PyTDSignature._map_args: **kwargs formal loop not found")
-  it = loops[0].iter
-  inner = it.args[0] if isinstance(it, ast.Call) and dotted(it.func) == "sorted" and it.args else it
-  names = {x.id for x in ast.walk(inner) if isinstance(x, ast.Name)}
-  # resolve one level of locals
-  defs = {}
-  for n in ast.walk(fn):
-    if isinstance(n, ast.Assign) and len(n.targets) == 1 and isinstance(n.targets[0], ast.Name):
-      defs.setdefault(n.targets[0].id, []).append(n.value)
-  def expand(name, depth=0):
-    out = {name}
-    if depth < 3:
-      for v in defs.get(name, []):
-        for x in ast.walk(v):
-          if isinstance(x, ast.Name) and x.id != name:
-            out |= expand(x.id, depth + 1)
-        out.add(src(v))
-    return out
-  reach = set()
-  for nm in names:
-    reach |= expand(nm)
-  # does the iterated set include the positional-only-named keywords?
-  includes_posonly = any("posonly" in r for r in reach)
-  excludes_all_params = any("p.name for p in self.pytd_sig.params" in r for r in reach)
-  if not excludes_all_params and not includes_posonly:
-    raise AnalysisError(f"**kwargs formal loop iterates `{src(it)}`: provenance not understood")
-  ctx.check(includes_posonly, "PyTDSignature._map_args:posonly-keyword-checked-against-kwargs",
-            PF, loops[0].lineno,
+  # the stub binder as R13.1 sees it: PyTDSignature._map_args resolved along the
+  # module-local MRO, with the self-helpers it was split into inlined
+  binder = C13._binders(ctx)[1]
+  found = []
+  for q, fn in binder.fns:
+    # the local holding the **kwargs value type: bound from an expression that
+    # reads <signature>.kwargs_name
+    ktypes = {n.targets[0].id for n in walk_no_nested(fn)
+              if isinstance(n, ast.Assign) and len(n.targets) == 1
+              and isinstance(n.targets[0], ast.Name)
+              and any(isinstance(x, ast.Attribute) and x.attr == "kwargs_name"
+                      for x in ast.walk(n.value))}
+    for n in walk_no_nested(fn):
+      if not isinstance(n, ast.For):
+        continue
+      appends = [c for st in n.body for c in ast.walk(st)
+                 if isinstance(c, ast.Call) and isinstance(c.func, ast.Attribute)
+                 and c.func.attr == "append"
+                 and any(isinstance(x, ast.Name) and x.id in ktypes
+                         for x in ast.walk(c))]
+      if appends:
+        found.append((q, fn, n))
+  if len(found) != 1:
+    raise AnalysisError(
+        "PyTDSignature._map_args: the loop that appends (name, **kwargs value "
+        f"type) formals was found {len(found)} times")
+  q, fn, loop = found[0]
+  canon = C13._Canon(binder, q, fn)
+  it = loop.iter
+  sc = canon.set_class(it, loop)
+  if sc not in ("extra", "extra+posonly-kw"):
+    raise AnalysisError(
+        f"**kwargs formal loop iterates `{src(it)}` (classified {sc}): "
+        "provenance not understood")
+  ctx.check(sc == "extra+posonly-kw",
+            "PyTDSignature._map_args:posonly-keyword-checked-against-kwargs",
+            PF, loop.lineno,
             f"the keywords matched against the **kwargs value type are `{src(it)}` "
             "= the passed keywords minus every parameter name; a keyword that "
             "names a positional-only parameter goes to **kwargs at run time "
             "but is neither bound nor type-checked",
-            {"iter": src(it)})
+            {"iter": src(it), "iterates": sc})
 
 
 VARIANTS = [
